@@ -3,7 +3,7 @@
 From Coq Require Import String ZArith QArith Bool Arith Lia List Permutation.
 From GT Require Import Base.UTree Spec.Obs Spec.Unrooted Spec.NNISpec Model.Reroot Model.NNI Model.Newick
      Proofs.RerootBase Proofs.Splits Proofs.NNIBase Proofs.NNISem Proofs.NNIMain Proofs.NNICount
-     Proofs.NNISets Proofs.NNIDistinct Proofs.NNIList Proofs.NNITrees Proofs.NNIInner.
+     Proofs.NNISets Proofs.NNIDistinct Proofs.NNIList Proofs.NNITrees Proofs.NNIInner Proofs.NNIUSplits Proofs.USplits.
 Import ListNotations.
 Local Close Scope Q_scope.
 Local Open Scope string_scope.
@@ -207,4 +207,178 @@ Theorem witness_multi_facts :
   map (fun r => (r_edge r, r_path r, r_k r, r_cross r)) (nni_list witness_multi)
   = [(0, [], 0, false); (0, [], 0, true); (3, [], 1, false); (3, [], 1, true);
      (4, [1], 1, false); (4, [1], 1, true)].
+Proof. vm_compute. repeat split. Qed.
+
+(** * stretch 5: the count in one statement, the neighbours at the level of [usplits],
+    nested and interleaved enumerations *)
+Lemma no_inner_kids_no_internal t :
+  inner_root_kids t = 0 -> internal_edges t = [].
+Proof.
+  destruct t as [n c sl]. unfold inner_root_kids, kids. cbn [uslots internal_edges].
+  induction sl as [|[[e ch]|] r IH]; cbn [kids_of flat_map filter app snd]; auto.
+  destruct (is_tip ch); cbn [negb]; [auto|discriminate].
+Qed.
+
+Lemma filter_len_le {A} (f : A -> bool) l : length (filter f l) <= length l.
+Proof. induction l as [|a l IH]; cbn; auto. destruct (f a); cbn; lia. Qed.
+
+Lemma rooted_kids_le t : wf t = true -> degree t = 2 -> inner_root_kids t <= 2.
+Proof.
+  intros W D. unfold inner_root_kids. etransitivity; [apply filter_len_le|].
+  destruct t as [n c sl]. unfold kids, degree in *. cbn [uslots wf] in *.
+  pose proof (length_slots sl). lia.
+Qed.
+
+(** exactly two per inner branch, except that the inner branch through a degree-2 root
+    (both root children inner nodes) gets none *)
+Theorem nni_count_exact t :
+  wf t = true -> binary t = true ->
+  length (nni_list t) =
+  2 * (inner_branch_count t - (if rooted t && Nat.eqb (inner_root_kids t) 2 then 1 else 0)).
+Proof.
+  intros W B. pose proof (binary_count t W B) as H. unfold inner_branch_count, rooted.
+  destruct (root_setup t W B) as (_ & _ & _ & [D|D] & _); rewrite D in *; cbn [Nat.eqb andb] in *.
+  - pose proof (rooted_kids_le t W D) as LE.
+    destruct (inner_root_kids t) as [|[|[|k]]] eqn:EK; cbn [Nat.eqb] in *; try lia.
+    rewrite (no_inner_kids_no_internal t EK) in *. cbn [length] in *. lia.
+  - lia.
+Qed.
+
+Theorem nni_count_exact_splits t :
+  wf t = true -> binary t = true -> NoDup (leaves t) ->
+  length (nni_list t) =
+  2 * (inner_split_count t - (if rooted t && Nat.eqb (inner_root_kids t) 2 then 1 else 0)).
+Proof. intros W B ND. rewrite <- inner_counts; auto. now apply nni_count_exact. Qed.
+
+(** the neighbour's [usplits]: one key replaced, every other split found with the same data *)
+Theorem usplits_replaced_list t r t' :
+  wf t = true -> binary t = true -> NoDup (leaves t) -> In r (nni_list t) -> apply r t = Some t' ->
+  exists c_old c_new,
+    (slen c_new == slen c_old)%Q /\ (ssup c_new == ssup c_old)%Q /\
+    sside c_old <> sside c_new /\
+    orel split_qeq (find_split (sside c_old) (usplits t)) (Some c_old) /\
+    find_split (sside c_new) (usplits t) = None /\
+    orel split_qeq (find_split (sside c_new) (usplits t')) (Some c_new) /\
+    find_split (sside c_old) (usplits t') = None /\
+    forall k, k <> sside c_old -> k <> sside c_new ->
+              orel split_qeq (find_split k (usplits t')) (find_split k (usplits t)).
+Proof.
+  intros W B ND I A1. apply (usplits_replaced r); auto; [now apply binary_two_kids | now apply nni_list_valid].
+Qed.
+
+(** different proposals: different sets of [usplits] keys; a neighbour: not the keys of [t] *)
+Theorem neighbours_distinct_usplits t r1 r2 t1 t2 :
+  wf t = true -> binary t = true -> NoDup (leaves t) ->
+  In r1 (nni_list t) -> In r2 (nni_list t) ->
+  (r_path r1, r_k r1, r_cross r1) <> (r_path r2, r_k r2, r_cross r2) ->
+  apply r1 t = Some t1 -> apply r2 t = Some t2 ->
+  ~ (forall k, In k (map sside (usplits t1)) <-> In k (map sside (usplits t2))).
+Proof.
+  intros W B ND I1 I2 Ne A1 A2.
+  pose proof (apply_leaves r1 t t1 W (nni_list_valid _ _ I1) A1) as L1.
+  pose proof (apply_leaves r2 t t2 W (nni_list_valid _ _ I2) A2) as L2.
+  apply distinct_keys.
+  - eapply Permutation_NoDup; eauto.
+  - etransitivity; [symmetry; exact L1 | exact L2].
+  - exact (neighbours_distinct_binary t r1 r2 t1 t2 W B ND I1 I2 Ne A1 A2).
+Qed.
+
+Theorem neighbour_differs_usplits t r t1 :
+  wf t = true -> binary t = true -> NoDup (leaves t) ->
+  In r (nni_list t) -> apply r t = Some t1 ->
+  ~ (forall k, In k (map sside (usplits t1)) <-> In k (map sside (usplits t))).
+Proof.
+  intros W B ND I A1.
+  pose proof (apply_leaves r t t1 W (nni_list_valid _ _ I) A1) as L1.
+  apply distinct_keys.
+  - eapply Permutation_NoDup; eauto.
+  - now symmetry.
+  - exact (proj1 (neighbour_differs t r t1 W B ND I A1)).
+Qed.
+
+(** a second enumeration started while proposal [r] is applied (the 2-step neighbourhood):
+    it proposes the neighbours of the neighbour, leaves it as it is, and Undo then restores [t] *)
+Theorem nested_enumeration t r :
+  wf t = true -> In r (nni_list t) ->
+  exists t1 l1, apply r t = Some t1 /\ wf t1 = true /\
+                rearrange t1 = Some (l1, t1) /\
+                Forall2 (fun r' t' => apply r' t1 = Some t') (nni_list t1) l1 /\
+                undo r t1 = Some t.
+Proof.
+  intros W I. destruct (undo_apply_list t r W I) as (t1 & A1 & U1).
+  pose proof (apply_wf r t t1 W (nni_list_valid _ _ I) A1) as W1.
+  destruct (rearrange_restores t1 W1) as (l1 & R1 & F1).
+  exists t1, l1. auto.
+Qed.
+
+(** two enumerations interleaved in any way are the two enumerations: the steps of one never
+    read or write the tree of the other (the model has no state besides the trees) *)
+Definition ostep := utree -> option utree.
+Fixpoint run_seq (ops : list ostep) (t : utree) : option utree :=
+  match ops with
+  | [] => Some t
+  | f :: r => match f t with Some t' => run_seq r t' | None => None end
+  end.
+(** [sched]: true = next step of the first enumeration, false = of the second *)
+Fixpoint run_two (sched : list bool) (oa ob : list ostep) (a b : utree) : option (utree * utree) :=
+  match sched with
+  | [] => match oa, ob with [], [] => Some (a, b) | _, _ => None end
+  | true :: s => match oa with
+                 | f :: ra => match f a with Some a' => run_two s ra ob a' b | None => None end
+                 | [] => None end
+  | false :: s => match ob with
+                  | f :: rb => match f b with Some b' => run_two s oa rb a b' | None => None end
+                  | [] => None end
+  end.
+
+Theorem interleaving_independent sched : forall oa ob a b a' b',
+  run_seq oa a = Some a' -> run_seq ob b = Some b' ->
+  length (filter (fun x => x) sched) = length oa -> length (filter negb sched) = length ob ->
+  run_two sched oa ob a b = Some (a', b').
+Proof.
+  induction sched as [|[|] s IH]; intros oa ob a b a' b' HA HB LA LB; cbn [run_two filter negb length] in *.
+  - destruct oa, ob; try discriminate. cbn in HA, HB. congruence.
+  - destruct oa as [|f ra]; [discriminate|]. cbn [run_seq length] in *. destruct (f a); [|discriminate].
+    apply IH; auto.
+  - destruct ob as [|f rb]; [discriminate|]. cbn [run_seq length] in *. destruct (f b); [|discriminate].
+    apply IH; auto.
+Qed.
+
+(** the steps of the cmd/nni.go loop on [t]: Apply, Undo for every proposal of the enumeration *)
+Definition enum_steps (t : utree) : list ostep :=
+  flat_map (fun r => [apply r; undo r]) (nni_list t).
+
+Lemma enum_steps_run t : wf t = true -> run_seq (enum_steps t) t = Some t.
+Proof.
+  intros W. unfold enum_steps.
+  assert (F : Forall (fun r => valid r t) (nni_list t)) by (apply Forall_forall; intros r; apply nni_list_valid).
+  induction F as [|r rs V _ IH]; cbn [flat_map app run_seq]; auto.
+  destruct (undo_apply r t W V) as (t1 & -> & U). cbn [run_seq]. now rewrite U.
+Qed.
+
+Theorem two_enumerations_interleaved ta tb sched :
+  wf ta = true -> wf tb = true ->
+  length (filter (fun x => x) sched) = length (enum_steps ta) ->
+  length (filter negb sched) = length (enum_steps tb) ->
+  run_two sched (enum_steps ta) (enum_steps tb) ta tb = Some (ta, tb).
+Proof. intros WA WB. apply interleaving_independent; now apply enum_steps_run. Qed.
+
+(** non-vacuity: ((a,b),(c,d),(e,f)); three inner branches, six neighbours, each with one of
+    the three non-trivial keys replaced by a new one, six different key sets *)
+Definition witness6 : utree :=
+  UNode "" [] [Some (e0, cherry "a" "b"); Some (e0, cherry "c" "d"); Some (e0, cherry "e" "f")].
+Definition nt_keys (t : utree) : list (list string) :=
+  map sside (filter (nontrivial_split (length (tipset t))) (usplits t)).
+
+Theorem witness6_facts :
+  wf witness6 = true /\ binary witness6 = true /\ leaves witness6 = ["a"; "b"; "c"; "d"; "e"; "f"] /\
+  nt_keys witness6 = [["c"; "d"; "e"; "f"]; ["c"; "d"]; ["e"; "f"]] /\
+  length (nni_list witness6) = 6 /\ inner_split_count witness6 = 3 /\ inner_branch_count witness6 = 3 /\
+  map (fun r => match apply r witness6 with Some t' => nt_keys t' | None => [] end) (nni_list witness6) =
+  [[["b"; "c"; "d"]; ["e"; "f"]; ["c"; "d"]];
+   [["b"; "e"; "f"]; ["e"; "f"]; ["c"; "d"]];
+   [["d"; "e"; "f"]; ["c"; "d"; "e"; "f"]; ["e"; "f"]];
+   [["c"; "e"; "f"]; ["c"; "d"; "e"; "f"]; ["e"; "f"]];
+   [["c"; "d"; "e"; "f"]; ["c"; "d"; "e"]; ["c"; "d"]];
+   [["c"; "d"; "e"; "f"]; ["c"; "d"; "f"]; ["c"; "d"]]].
 Proof. vm_compute. repeat split. Qed.
